@@ -73,4 +73,53 @@ ExpandSharedAt(b, n, t, fuel) ==
   ELSE IF t \in {"schema", "schemaMap", "schemaList", "opaque"} THEN n
   ELSE [n EXCEPT !.ch = [l \in DOMAIN n.ch |-> ExpandSharedAt(b, n.ch[l], ChildType(t, n, l, n.ch[l], {}, TRUE), fuel)]]
 ExpandShared(b) == ExpandSharedAt(b, RootOf(b), "swagger", 8)
+
+\* ---- step 1 in Expand mode: every $ref is replaced by its (recursively expanded) target, except a $ref whose
+\* target is already being expanded further up (a cycle), which stays in place ------------------------------------
+RECURSIVE ExpandNode(_, _, _, _)
+ExpandNode(b, n, stack, fuel) ==
+  IF HasRef(n) THEN
+     LET t == RefOf(n) IN
+     IF t \in stack \/ ~Valid(b, t) \/ fuel = 0 THEN n
+     ELSE ExpandNode(b, NodeAt(b, t), stack \cup {t}, fuel - 1)
+  ELSE [n EXCEPT !.ch = [l \in DOMAIN n.ch |-> ExpandNode(b, n.ch[l], stack, fuel)]]
+ExpandAll(b) ==
+  LET r == RootOf(b) IN
+  [r EXCEPT !.ch = [c \in DOMAIN r.ch |->
+      IF c = "definitions"
+      THEN [r.ch[c] EXCEPT !.ch = [d \in DOMAIN r.ch[c].ch |-> ExpandNode(b, r.ch[c].ch[d], {<<"root", "definitions", d>>}, 24)]]
+      ELSE ExpandNode(b, r.ch[c], {}, 24)]]
+
+\* ---- step 4 as a loop: import remote targets until none is left (names: the target's own, suffixed on collision) --------
+ImportName(doc, t, resolved) ==
+  IF t \in DOMAIN resolved THEN resolved[t]
+  ELSE LET n == Last(t) IN IF n \in Defs(doc) THEN n \o "OAIGen" ELSE n
+RECURSIVE ImportLoop(_, _, _, _)
+ImportLoop(b0, doc, resolved, fuel) ==
+  LET R == RemoteTargets(doc) IN
+  IF R = {} \/ fuel = 0 THEN doc
+  ELSE LET t  == CHOOSE x \in R : TRUE          \* the code sorts them; any order gives the same result without collisions
+           nm == ImportName(doc, t, resolved)
+           d2 == IF t \in DOMAIN resolved THEN ImportKnown(doc, nm, HoldersOf(doc, t))
+                 ELSE ImportNew(b0, doc, t, nm, HoldersOf(doc, t))
+       IN ImportLoop(b0, d2, (t :> nm) @@ resolved, fuel - 1)
+
+\* ---- step 5 as a loop: name every inline complex schema, deepest first ---------------------------------------------------
+RECURSIVE JoinPath(_)
+JoinPath(p) == IF p = <<>> THEN "" ELSE Head(p) \o (IF Len(p) > 1 THEN "." ELSE "") \o JoinPath(Tail(p))
+GenName(key) == "gen:" \o JoinPath(key)
+RECURSIVE NameLoop(_, _)
+NameLoop(doc, fuel) ==
+  LET I == InlineComplex(doc, {}) IN
+  IF I = {} \/ fuel = 0 THEN doc
+  ELSE LET k == CHOOSE x \in I : \A y \in I : Len(y) <= Len(x)
+       IN NameLoop(NameOne(doc, k, GenName(k), MarkerFor(k)), fuel - 1)
+
+\* ---- the whole pipeline, for bundles without anonymous pointers and without name collisions ------------------------------
+Phase1(b0, mode)   == IF mode = "expand" THEN ExpandAll(b0) ELSE ExpandShared(b0)
+Phase3(doc, ru)    == IF ru THEN DropShared(doc) ELSE doc
+Phase4(b0, doc)    == ImportLoop(b0, doc, <<>>, 16)
+Phase5(doc, mode)  == IF mode = "full" THEN NameLoop(doc, 32) ELSE doc
+Phase7(doc, ru)    == IF ru THEN RemoveAll(doc) ELSE doc
+FlattenModel(b0, mode, ru) == Phase7(Phase5(Phase4(b0, Phase3(Phase1(b0, mode), ru)), mode), ru)
 =============================================================================
